@@ -12,7 +12,7 @@
    (no bound on their magnitude); register ids [A-Z0-9]*, flag ids canonical decimals with value 0/1.
    The NetworkConfig JSON text is produced by encoding/json (oracle, carried as text). *)
 From RP Require Import Lib.Base Lib.Sexp Lib.Strings Lib.TrimSpace Lib.FloatFmt Model.MsgOut Model.Flatten Model.EncOut
-  Spec.DenoteOut Spec.GrammarOut Proofs.OutEncLines Proofs.OutEncSys Proofs.OutEncSound Proofs.OutCorollary.
+  Spec.DenoteOut Spec.GrammarOut Proofs.OutEncLines Proofs.OutEncSys Proofs.OutEncSound.
 From Coq Require Import Permutation.
 Open Scope Z_scope.
 
